@@ -430,7 +430,8 @@ def resolve_helper(R, f, call):
                     return h, (0 if h.is_static else 1)
     # <path>.m(...) with m a NEW method (outside the baseline table) that exactly one class family of the repository defines:
     # whatever object the path denotes, a call that succeeds runs that method
-    if isinstance(fn, ast.Attribute) and isinstance(fn.value, ast.Attribute) and _attr_chain(fn.value):
+    if isinstance(fn, ast.Attribute) and ((isinstance(fn.value, ast.Attribute) and _attr_chain(fn.value))
+                                          or (isinstance(fn.value, ast.Name) and fn.value.id not in ("self", "cls") and fn.value.id not in R.imports.get(f.mod, {}))):
         new = set(getattr(R, "new_functions", []) or [])
         owners = [g for g in R.funcs.values() if g.name == fn.attr and g.cls]
         if owners and all(g.qname in new for g in owners):
